@@ -126,7 +126,9 @@ func checkC07(e *Env) {
 		if wrapper {
 			// interposer modes: plain recording, fragmented reads, a failing read
 			mode := "1"
-			switch (p / 2) % 5 {
+			switch (p / 2) % 6 {
+			case 5:
+				mode = "tempfail:" + itoa(1+(p*5)%calls)
 			case 4:
 				mode = "zeros:3"
 			case 1:
